@@ -16,6 +16,12 @@ func (l *LRAPlanner) Process(ctx *shared.PlannerContext,
 			AggregatorPlanner: l.AggregatorPlanner,
 		}).Process(ctx, in)
 	}
+	switch l.Func {
+	case "rate", "count_over_time", "bytes_rate", "bytes_over_time":
+	default:
+		// a name addValue has no case for (e.g. sum_over_time without | unwrap) left every bucket empty
+		return nil, &shared.NotSupportedError{Msg: l.Func + " without | unwrap is not supported yet."}
+	}
 	return l.process(ctx, in, aggregatorPlannerOps{
 		addValue: l.addValue,
 		finalize: l.finalize,
